@@ -45,7 +45,7 @@ ASSUMPTIONS = [
     "Unicode decimal digits (str.isdecimal()), which int() accepts as well",
     "version numbers have at most 400 digits in the generated domain (CPython refuses int<->str "
     "conversion beyond 4300 digits; such ids are outside the domain)",
-    "ids are str objects without lone surrogates; version numbers are non-negative",
+    "ids are str objects (lone surrogates included, as disallowed characters); version numbers are non-negative",
     "Sokoban-v0 is instantiated with generator=ToyGenerator() because its dataset is not available "
     "offline; a plain make('Sokoban-v0') is not attempted",
     "register() is called with constructor arguments passed as kwargs={...}, as jumanji/__init__.py does",
@@ -1043,7 +1043,7 @@ def run_item(item, seed, tier):
             for f in info["features"]:
                 ctx.count("ids_feature_" + f)
             if _id_nontrivial(info):
-                ctx.nontrivial("id", case["id"])
+                ctx.nontrivial("id", case["id"].encode("utf-8", "surrogatepass"))
             if info["class"] == "valid" and len(info["features"]) >= 3:
                 ctx.sample(case)
             for o, sig, msg in fails:
